@@ -149,16 +149,20 @@ pub fn drive(t: &mut Tracer, r: &mut Rng, n: usize) {
             9 => {
                 // named zones through the bundled provider, years 1800..2037 (what the zone's offset is, is C13/C15's business:
                 // the offset reported by the public getter travels with the event)
-                let ns = r.range(-5_364_662_400, 2_145_916_800) as i128 * 1_000_000_000 + sub_ns(r) as i128;
+                let ns = (if r.chance(1, 3) { r.range(-5_364_662_400, -2_500_000_000) } else { r.range(-5_364_662_400, 2_145_916_800) }) as i128 * 1_000_000_000 + sub_ns(r) as i128;
                 let v = json!({"ns": big(ns), "tz": chars_tok(*r.pick(&NAMED)), "cal": *r.pick(&CALS)});
                 let off = ops::exec("ZonedDateTime.offsetNs", &json!({"v": v}));
                 if off["kind"] == "ok" {
                     let o = crate::js::unbig(&off["val"]);
                     if o % 1_000_000_000 == 0 {
                         let mut a = json!({"v": v, "offs": (o / 1_000_000_000) as i64});
-                        cal_opt(r, &mut a); prec_opts(r, &mut a, true);
-                        if r.chance(1, 4) { a["od"] = json!("never"); }
-                        if r.chance(1, 4) { a["zd"] = json!(*r.pick(&["critical", "auto"])); }
+                        // (one in three through Display / to_string: a separate entry point that must print the same text, also for
+                        // the local-mean-time offsets with seconds before the zones were standardised)
+                        if r.chance(1, 3) { a["via"] = json!("display"); } else {
+                            cal_opt(r, &mut a); prec_opts(r, &mut a, true);
+                            if r.chance(1, 4) { a["od"] = json!("never"); }
+                            if r.chance(1, 4) { a["zd"] = json!(*r.pick(&["critical", "auto"])); }
+                        }
                         cycle(t, "ZonedDateTime", a, false);
                     }
                 }
